@@ -2,12 +2,33 @@
 
 import re
 import secrets
+import unicodedata
 from typing import Union
 
 from vyxal import encoding, helpers, lexer, parse, structure
 from vyxal.elements import *
 from vyxal.helpers import indent_str, uncompress
 from vyxal.lexer import Token, TokenType
+
+# What has to follow "\\" for Python to accept a hex / unicode escape
+PYTHON_ESCAPE = re.compile(
+    r"x[0-9a-fA-F]{2}|u[0-9a-fA-F]{4}"
+    r"|U(?:000[0-9a-fA-F]{5}|0010[0-9a-fA-F]{4})|N\{([^}]+)\}"
+)
+
+
+def is_python_escape(string: str, start: int) -> bool:
+    """Whether string[start:] completes a \\x, \\u, \\U or \\N{name} escape"""
+    match = PYTHON_ESCAPE.match(string, start)
+    if match is None:
+        return False
+    if match.group(1) is not None:
+        try:
+            unicodedata.lookup(match.group(1))
+        except KeyError:
+            return False
+    return True
+
 
 NILADIC_TYPES = (
     TokenType.STRING,
@@ -106,15 +127,21 @@ def transpile_token(
 
         # So instead, we have to manually escape the string
         temp = ""
-        iterator = iter(string)
-        for char in iterator:
+        iterator = iter(enumerate(string))
+        for index, char in iterator:
             if char == "\\":
-                after_char = next(iterator, "")
+                after_char = next(iterator, (0, ""))[1]
                 if after_char == "`":
                     temp += "`"
                 elif after_char == "":
                     # a lone backslash at the very end of the literal
                     temp += "\\\\"
+                elif after_char in "xuUN" and not is_python_escape(
+                    string, index + 1
+                ):
+                    # an incomplete escape would not compile: keep the
+                    # backslash, like Python does for unknown escapes
+                    temp += "\\\\" + after_char
                 else:
                     temp += "\\" + after_char
             elif char == '"':
